@@ -105,6 +105,10 @@ Next ==
        \/ "clear" \in Alpha /\ \E p \in Paths : Do([op |-> "clear", v |-> x, path |-> p])
        \/ "get" \in Alpha /\ \E i \in 0..(Len0(x) + 1), kind \in {"get", "at", "get_mut", "at_mut", "tget", "tat", "tget_mut", "tat_mut"} :
             Do([op |-> "get", v |-> x, i |-> i, kind |-> kind])
+       \/ "get" \in Alpha /\ \E i \in 0..(Len0(x) - 1), kind \in {"get_unchecked", "get_unchecked_mut", "tget_unchecked", "tget_unchecked_mut"} :
+            Do([op |-> "get", v |-> x, i |-> i, kind |-> kind])
+       \/ "get" \in Alpha /\ Do([op |-> "debug", v |-> x])
+       \/ "clone" \in Alpha /\ \E i \in 0..(Len0(x) - 1) : Do([op |-> "fn_ptrs", v |-> x, i |-> i])
        \/ "mutate" \in Alpha /\ MutCount = 0 /\ \E i \in 0..(Len0(x) - 1), via \in {"elem_mut", "bytes_mut", "typed", "slice", "iter_mut", "titer_mut"} :
             Do([op |-> "mutate", v |-> x, i |-> i, via |-> via])
        \/ "drain" \in Alpha /\ \E r \in RangeArgs(Len0(x)), p \in Paths :
